@@ -68,36 +68,47 @@ package command
 //@   requires implements(logComputer, LogComputer)
 //@   ensures err == nil && !parameters.DryRun ==> persisted[ret0]                                           // C06: acknowledged means persisted
 //@   ensures err != nil ==> enqueued == old(enqueued)                                                        // C06: rejected means no trace
-//@   ensures err == nil && !parameters.DryRun ==> enqueued <= old(enqueued) + 1
+//@   ensures err == nil && !parameters.DryRun ==> enqueued <= old(enqueued) + 1      // C06
 //@   ensures parameters.DryRun ==> enqueued == old(enqueued) && commander.lastLog == old(commander.lastLog)   // C14
 //@   ensures parameters.DryRun ==> commander.lastTXID == old(commander.lastTXID)                              // C14: no consumed transaction id
-//@   property C06 C07 C11 C14 C02
+//@   property C02 C06 C07 C11 C14
 
 //@ func (*command.Commander).CreateTransaction
 //@   requires commander != nil && commander.lastTXID != nil && idle() && headOK(commander)
-//@   ensures parameters.DryRun ==> published == old(published) && enqueued == old(enqueued) && commander.lastLog == old(commander.lastLog) && commander.lastTXID == old(commander.lastTXID)
-//@   ensures err != nil ==> published == old(published) && enqueued == old(enqueued)
-//@   ensures err == nil && !parameters.DryRun ==> published == old(published) + 1
-//@   property C14 C16 C06 C07
+//@   ensures parameters.DryRun ==> published == old(published) && enqueued == old(enqueued) && commander.lastLog == old(commander.lastLog) && commander.lastTXID == old(commander.lastTXID)      // C14
+//@   ensures err != nil ==> published == old(published) && enqueued == old(enqueued)      // C06 C16
+//@   ensures err == nil && !parameters.DryRun ==> published == old(published) + 1      // C16
+//@   property C02 C06 C07 C11 C14 C16
 
 //@ func (*command.Commander).RevertTransaction
 //@   requires commander != nil && commander.lastTXID != nil && idle() && headOK(commander)
-//@   ensures parameters.DryRun ==> published == old(published) && enqueued == old(enqueued) && commander.lastLog == old(commander.lastLog) && commander.lastTXID == old(commander.lastTXID)
-//@   ensures err != nil ==> published == old(published) && enqueued == old(enqueued)
-//@   ensures err == nil && !parameters.DryRun ==> published == old(published) + 1
-//@   ensures forall k string :: held[k] == old(held[k])                          // every reservation is released on every path
-//@   property C14 C16 C06 C07 C10
+//@   ensures parameters.DryRun ==> published == old(published) && enqueued == old(enqueued) && commander.lastLog == old(commander.lastLog) && commander.lastTXID == old(commander.lastTXID)      // C14
+//@   ensures err != nil ==> published == old(published) && enqueued == old(enqueued)      // C06 C16
+//@   ensures err == nil && !parameters.DryRun ==> published == old(published) + 1      // C16
+//@   ensures forall k string :: held[k] == old(held[k])                          // C07 C10: every reservation is released on every path
+//@   property C02 C06 C07 C10 C11 C14 C16
 
 //@ func (*command.Commander).SaveMeta
 //@   requires commander != nil && idle() && headOK(commander)
-//@   ensures parameters.DryRun ==> published == old(published) && enqueued == old(enqueued) && commander.lastLog == old(commander.lastLog) && commander.lastTXID == old(commander.lastTXID)
-//@   ensures err != nil ==> published == old(published) && enqueued == old(enqueued)
-//@   ensures err == nil && !parameters.DryRun ==> published == old(published) + 1
+//@   ensures parameters.DryRun ==> published == old(published) && enqueued == old(enqueued) && commander.lastLog == old(commander.lastLog) && commander.lastTXID == old(commander.lastTXID)      // C14
+//@   ensures err != nil ==> published == old(published) && enqueued == old(enqueued)      // C06 C16
+//@   ensures err == nil && !parameters.DryRun ==> published == old(published) + 1      // C16
 //@   property C14 C16 C06 C07
 
 //@ func (*command.Commander).DeleteMetadata
 //@   requires commander != nil && idle() && headOK(commander)
-//@   ensures parameters.DryRun ==> published == old(published) && enqueued == old(enqueued) && commander.lastLog == old(commander.lastLog) && commander.lastTXID == old(commander.lastTXID)
-//@   ensures err != nil ==> published == old(published) && enqueued == old(enqueued)
-//@   ensures err == nil && !parameters.DryRun ==> published == old(published) + 1
+//@   ensures parameters.DryRun ==> published == old(published) && enqueued == old(enqueued) && commander.lastLog == old(commander.lastLog) && commander.lastTXID == old(commander.lastTXID)      // C14
+//@   ensures err != nil ==> published == old(published) && enqueued == old(enqueued)      // C06 C16
+//@   ensures err == nil && !parameters.DryRun ==> published == old(published) + 1      // C16
 //@   property C14 C16 C06 C07
+
+// ---- from the per-request protocol to "some serial order" (ground, over ghost timestamps).
+// Each request keeps its lock / reservation from before its read (balance read, store lookup) until after the
+// persistence of its log (the onrecv obligations above); the lock table / sync.Map never lets two conflicting
+// requests hold at the same time (C15, sync.Map). Then one of the two read what the other had already persisted.
+//@ lemma spans_serialize(lockX int, readX int, persX int, unlockX int, lockY int, readY int, persY int, unlockY int)
+//@   requires lockX < readX && readX < persX && persX < unlockX
+//@   requires lockY < readY && readY < persY && persY < unlockY
+//@   requires unlockX < lockY || unlockY < lockX
+//@   ensures persX < readY || persY < readX
+//@   property C02 C07 C10 C11
